@@ -4961,6 +4961,8 @@ class RStruct:
                 self.fields.append((fld, "arr", None))
             elif ty == "CVWords":
                 self.fields.append((fld, "arr", None))
+            elif re.fullmatch(r"\[\s*\[\s*u32\s*;\s*\d+\s*\]\s*;\s*\d+\s*\]", ty):     # [[u32; 8]; 54]
+                self.fields.append((fld, "arr2", None))
             elif ty in ("u8", "u32", "u64"):
                 self.fields.append((fld, "word", TYPES[ty]))
             elif ty == "Platform":
@@ -4976,7 +4978,7 @@ class RStruct:
         return f"{self.coq}_{f}"
 
     def record(self):
-        ty = {"arr": "list N", "word": "N", "platform": "platform", "cvstack": "list (list N)"}
+        ty = {"arr": "list N", "word": "N", "platform": "platform", "cvstack": "list (list N)", "arr2": "list (list N)"}
         rows = ";\n".join(f"  {self.proj(f)} : {self.structs[k[1]].coq if isinstance(k, tuple) else ty[k]}"
                           for f, k, _ in self.fields)
         return f"Record {self.coq} := {self.coq}_mk {{\n{rows} }}.\n"
@@ -5399,11 +5401,13 @@ class RFn(PFn):
             text += (f"Definition {self.name}_debug_assert {sig} : bool :=\n" + "".join(l + "\n" for l in prelude)
                      + "  " + " && ".join(self.asserts) + ".\n\n")
         text += f"Definition {self.name} {sig} : {rty} :=\n" + "".join(l + "\n" for l in lines) + f"  {result}.\n"
-        self.sig = {"coq": self.name, "params": kinds, "widths": widths, "ret": rkind}
+        self.sig = {"coq": self.name, "params": kinds, "widths": widths, "ret": rkind, "rettext": ret,
+                    "asserts": bool(self.asserts)}
         return text
 
 
-def gen_refimpl():
+def _refimpl_core():
+    """the text of GenRefImpl.v and what gen_refimpl_loops needs of it"""
     out = [HEADER.replace("NArith List.", "NArith List Bool.").replace(
         "Base.MachInt.", "Base.MachInt Base.Word Base.Arr.\nFrom V Require Import gen.GenConsts.")]
     ref = strip_comments(src("reference_impl/reference_impl.rs"))
@@ -5443,7 +5447,11 @@ def gen_refimpl():
         f = RFn(P + fname, ref, r"\bfn\s+" + fname + r"\s*\(", consts, cenv, fns, structs, None, methods)
         out.append(f.translate())
         fns[fname] = f.sig
-    return "\n".join(out)
+    return {"text": "\n".join(out), "ref": ref, "fns": fns, "methods": methods, "structs": structs, "cenv": cenv}
+
+
+def gen_refimpl():
+    return _refimpl_core()["text"]
 
 
 # ---------------------------------------------------------------------------
@@ -5566,7 +5574,7 @@ _L_TOK = re.compile(r"""
   | (?P<num>0[xX][0-9a-fA-F_]+|[0-9][0-9_]*)(?:_?(?:u8|u16|u32|u64|usize))?
   | (?P<str>"(?:\\.|[^"\\])*")
   | (?P<id>[A-Za-z_][A-Za-z0-9_]*(?:::[A-Za-z_][A-Za-z0-9_]*)*)
-  | (?P<op>\.\.|\+=|-=|->|==|!=|<=|>=|&&|\|\||<<|>>|[-+*/%&|^!<>=().,\[\]{};:])
+  | (?P<op>\.\.|\+=|-=|->|==|!=|<<=|>>=|<=|>=|&&|\|\||<<|>>|[-+*/%&|^!<>=().,\[\]{};:])
 """, re.X)
 _L_SLICE_FROM, _L_SLICE_TO, _L_COPY_LEN, _L_ARRAY_REF = 40, 41, 42, 54
 
@@ -5597,8 +5605,8 @@ class LParser:
        expressions: the nodes of Parser plus ('ref', mut, e) ('deref', e) ('range', lo | None, hi | None)
                     ('macro', name, [args]) ('str', text) ('struct', name, [(field, e)]) ('repeat', e, n)"""
 
-    def __init__(self, toks, name, structs):
-        self.t, self.i, self.name, self.structs = toks, 0, name, structs
+    def __init__(self, toks, name, structs, rust_for=False):
+        self.t, self.i, self.name, self.structs, self.rust_for = toks, 0, name, structs, rust_for
 
     def err(self, msg):
         return AnchorError(f"{self.name}: {msg} at {self.t[self.i:self.i + 6]!r}")
@@ -5679,11 +5687,25 @@ class LParser:
                 e = self.expr(0)
                 self.expect(";")
                 out.append(("return", e))
+            elif (k, v) == ("id", "for") and self.rust_for:
+                # for x in e { .. } / for (x, y) in e { .. } -> ('for', [names], e, block)
+                self.next()
+                if self.accept("("):
+                    pat = [self.ident()]
+                    while self.accept(","):
+                        pat.append(self.ident())
+                    self.expect(")")
+                else:
+                    pat = [self.ident()]
+                if not self.accept_id("in"):
+                    raise self.err("expected 'in'")
+                it = self.expr(0, nostruct=True)
+                out.append(("for", pat, it, self.block()))
             elif k == "id" and v in ("for", "loop", "match", "break", "continue", "unsafe", "fn", "const", "static", "else"):
                 raise self.err(f"statement {v!r} is not translated")
             else:
                 e = self.expr(0)
-                if self.peek() in (("op", "="), ("op", "+="), ("op", "-=")):
+                if self.peek() in (("op", "="), ("op", "+="), ("op", "-="), ("op", ">>="), ("op", "<<=")):
                     op = self.next()[1]
                     rhs = self.expr(0)
                     self.expect(";")
@@ -5811,8 +5833,10 @@ class LCtx:
             return self.structs[k[1]].coq
         if k[0] == "platform":
             return "platform"
-        if k[0] == "cvstack":
+        if k[0] in ("cvstack", "arr2"):
             return "list (list N)"
+        if k[0] == "str":
+            return "list N"
         if k[0] == "ext":
             return k[1]
         raise AnchorError(f"no Gallina type for {k!r}")
@@ -5856,8 +5880,7 @@ class LFn:
         self.ctx, self.struct, self.fname = ctx, struct, fname
         self.name = f"{ctx.P}{struct}_{fname}"
         ptext, rtext = _fn_header(impl_text, header_re, self.name)
-        self.block = LParser(_l_tokens(fn_body(impl_text, header_re, self.name), self.name), self.name,
-                             set(ctx.structs)).body()
+        self.block = self.parse_body(fn_body(impl_text, header_re, self.name))
         self.codes, self.code_i = list(codes), 0
         self.env, self.params, self.selfmode = {}, [], None
         self.lines, self.tmp, self.monadic, self.exts, self.fuel, self.loops = [], 0, False, [], False, []
@@ -5870,6 +5893,13 @@ class LFn:
 
     def err(self, msg):
         return AnchorError(f"{self.name}: {msg}")
+
+    def parse_body(self, text):
+        return LParser(_l_tokens(text, self.name), self.name, set(self.ctx.structs)).body()
+
+    def site_wrap(self, lhs, term):
+        """hook: the checked arithmetic of a compound assignment (RLFn: Panic code of the source site)"""
+        return term
 
     # ---- signature ----
     def param(self, p):
@@ -6330,11 +6360,13 @@ class LFn:
                     self.bind(val, emit(s2, {}, {}, self.name, kind[1]))
             else:
                 val = self.fresh()
-                e = ("bin", op[0], ("coq", cur, kind[1]), self.subst(rhs))
+                if kind[1] is None:
+                    raise self.err(f"{lhs!r} {op} {rhs!r}: the type of the left-hand side is not known here")
+                e = ("bin", op[:-1], ("coq", cur, kind[1]), self.subst(rhs))
                 w = width_of(e[3], {})
-                if w is not None and w != kind[1]:
+                if w is not None and w != kind[1] and op[:-1] not in ("<<", ">>"):
                     raise self.err(f"{lhs!r} {op} {rhs!r}: operand widths")
-                self.bind(val, emit(e, {}, {}, self.name, kind[1]))
+                self.bind(val, self.site_wrap(lhs, emit(e, {}, {}, self.name, kind[1])))
             return self.set_path(root, fs, val)
         if op != "=":
             raise self.err(f"{op} on a non-integer")
@@ -6647,6 +6679,598 @@ def gen_lib_loops():
     return "\n".join(out)
 
 
+# ---------------------------------------------------------------------------
+# GenRefImplLoops.v: the REST of reference_impl/reference_impl.rs (what GenRefImpl.v leaves out), statement by statement,
+# with the statement translator of GenLibLoops (LParser / LFn) extended by the shapes this file uses:
+#   Output::root_output_bytes, ChunkState::new / update / output, Hasher::new_internal / new / new_keyed / push_stack /
+#   pop_stack / add_chunk_chaining_value / update / finalize / new_derive_key.
+# Callees translated in GenRefImpl.v (compress, first_8_words, words_from_little_endian_bytes, Output::chaining_value,
+# ChunkState::len / start_flag, parent_output, parent_cv) are called by name, with the signatures RFn recorded for them.
+#   * `[u32; 8]` / `&[u8; KEY_LEN]` / `&[u8]` / `&mut [u8]` / `&str` (its bytes: `.as_bytes()`) are `list N`;
+#     `[[u32; 8]; 54]` is `list (list N)` with Base/Arr2.v: `a[i]` -> `assert! (i <? len) code c ;; arr2_get`, `a[i] = v` ->
+#     the same assert and arr2_set (c: the Panic code Model/RefImpl.v gives the site, table _REF_LOOP_FNS).
+#   * a `&mut self` method returns the new `self` (and its value, if any); a `&mut [u8]` parameter is returned as its new
+#     contents.  `f(self.pop_stack(), ..)`: the call is bound first, `'(self, t) <- ..`, which is only accepted while no
+#     other part of the statement has read `self`.
+#   * `while c { .. }`: as in GenLibLoops, a Fixpoint on explicit fuel (OutOfFuel when the condition holds at fuel 0); a
+#     function passes its own fuel to its loops and to the callees that take one.
+#   * `for b in s.chunks_mut(n) { .. }` (n a positive constant, checked here): a Fixpoint on fuel over the part of `s` not
+#     visited yet: empty -> done; otherwise b := firstn n s, the body, the recursive call on skipn n s, and the result is
+#     the new b followed by the new rest (`s` itself cannot be named in the body).
+#     `for (w, b) in ws.iter().zip(s.chunks_mut(n)) { .. }`: the same by structural recursion on ws (stops when either
+#     runs out).
+#   * `x.to_le_bytes()` (u32) -> bytes_of_word; `a.copy_from_slice(b)` on a whole local slice or on
+#     `self.f[i..][..n]`: the slice checks (codes from the table for a field, 40 / 41 otherwise), the length check
+#     (code 42) and arr_store; `&a[..n]`, `&a[n..]`: codes 41 / 40.  The model leaves out the checks that cannot fail
+#     (`&input[..take]` with take = min(.., input.len())): the equality proofs show they never fire.
+#   * `let mut c = 0;` takes its type from its first use (an argument of a translated callee).
+#   * `self.cv_stack_len -= 1` in pop_stack is `ref_at_site 72 (mi_sub 8 ..)`: the model counts the wrap-around of this
+#     subtraction as the index panic that follows it in a release build (code 72 instead of the overflow code).
+#   * words_from_little_endian_bytes(b, &mut w): `assert! (.._debug_assert b w) code 1600` (its debug_assert_eq!), then
+#     the translated function.
+# Everything else raises AnchorError.
+# ---------------------------------------------------------------------------
+_REF_DEBUG_ASSERT = {"words_from_little_endian_bytes": 1600}
+# (struct, function, sites): place = (code of [a..], code of [..b]) per copy_from_slice into a sub-slice of a field,
+# index = code per `self.cv_stack[i]`, at_site = field -> code of its compound assignment.  In dependency order.
+_REF_LOOP_FNS = [("Output", "root_output_bytes", {}),
+                 ("ChunkState", "new", {}), ("ChunkState", "update", {"place": [(74, 75)]}), ("ChunkState", "output", {}),
+                 ("Hasher", "new_internal", {}), ("Hasher", "new", {}), ("Hasher", "new_keyed", {}),
+                 ("Hasher", "push_stack", {"index": [71]}),
+                 ("Hasher", "pop_stack", {"index": [72], "at_site": {"cv_stack_len": 72}}),
+                 ("Hasher", "add_chunk_chaining_value", {}), ("Hasher", "update", {}),
+                 ("Hasher", "finalize", {"index": [73]}), ("Hasher", "new_derive_key", {})]
+
+
+def _rl_norm(ast, struct):
+    """`Self` is the struct of the impl block"""
+    if isinstance(ast, tuple):
+        if ast and ast[0] == "call" and isinstance(ast[1], str) and ast[1].startswith("Self::"):
+            return ("call", struct + ast[1][4:], _rl_norm(ast[2], struct))
+        if ast and ast[0] == "struct" and ast[1] == "Self":
+            return ("struct", struct, _rl_norm(ast[2], struct))
+        return tuple(_rl_norm(a, struct) for a in ast)
+    if isinstance(ast, list):
+        return [_rl_norm(a, struct) for a in ast]
+    return ast
+
+
+class RLFn(LFn):
+    def __init__(self, ctx, impl_text, struct, fname, header_re, sites):
+        if set(sites) - {"place", "index", "at_site"}:
+            raise AnchorError(f"{struct}::{fname}: site table {sites!r}")
+        self.sites = {"place": list(sites.get("place", [])), "index": list(sites.get("index", [])),
+                      "at_site": dict(sites.get("at_site", {}))}
+        self.used = {"place": 0, "index": 0, "at_site": set()}
+        self.stmt_reads = set()
+        super().__init__(ctx, impl_text, struct, fname, header_re, [])
+
+    def parse_body(self, text):
+        b = LParser(_l_tokens(text, self.name), self.name, set(self.ctx.structs) | {"Self"}, rust_for=True).body()
+        return _rl_norm(b, self.struct)
+
+    # ---- signature ----
+    def param(self, p):
+        m = re.fullmatch(r"(mut )?(%s)\s*:\s*(.+)" % _IDENT, p)
+        if m:
+            mut, v, ty = bool(m.group(1)), m.group(2), m.group(3).strip()
+            kind, inout, elem = None, False, None
+            ma = re.fullmatch(r"&?\s*\[\s*(u8|u32)\s*;\s*(\w+)\s*\]", ty)
+            if ma and (ma.group(2).isdigit() or ma.group(2) in self.ctx.consts):
+                kind, elem = ("arr",), TYPES[ma.group(1)]
+            elif ty == "&mut [u8]":
+                kind, inout, mut, elem = ("slice",), True, True, 8
+            elif ty == "&str":
+                kind = ("str",)
+            if kind:
+                self.declare(v, kind, mut)
+                self.env[v]["elem"] = elem
+                self.params.append((v, kind, inout))
+                return
+        super().param(p)
+
+    def ret_kind(self, r):
+        if r == "-> Self":
+            return ("struct", self.struct)
+        if re.fullmatch(r"-> \[\s*u32\s*;\s*\d+\s*\]", r):
+            return ("arr",)
+        return super().ret_kind(r)
+
+    # ---- reads of a variable inside the current statement (see mut_call) ----
+    def path(self, ast):
+        p = super().path(ast)
+        if p is not None:
+            self.stmt_reads.add(p[0])
+        return p
+
+    def recv_struct(self, ast):
+        """struct of a struct-valued expression, without emitting anything"""
+        k = ast[0]
+        if k in ("var", "field"):
+            saved = set(self.stmt_reads)
+            p = self.path(ast)
+            self.stmt_reads = saved
+            return p[3][1] if p and p[3][0] == "struct" else None
+        sig = None
+        if k == "call":
+            sig = self.ctx.fns.get(ast[1])
+        elif k == "meth":
+            s = self.recv_struct(ast[1])
+            sig = self.ctx.methods.get((s, ast[2])) if s else None
+        if sig and sig["ret"] and sig["ret"][0] == "struct":
+            return sig["ret"][1]
+        return None
+
+    # ---- integer expressions ----
+    def subst(self, ast):
+        k = ast[0]
+        if k == "call" and ast[1] == "min" and len(ast[2]) == 2 and self.ctx.has_min:
+            return ("call", "cmp::min", [self.subst(a) for a in ast[2]])
+        if k == "meth" and not ast[3]:
+            s = self.recv_struct(ast[1])
+            sig = self.ctx.methods.get((s, ast[2])) if s else None
+            if s and sig is None:
+                raise self.err(f"call of {s}::{ast[2]}, which is not translated")
+            if sig:
+                if not (sig["ret"] and sig["ret"][0] == "int" and sig["self"] == "ref" and not sig["params"]) \
+                        or sig["exts"] or sig["fuel"]:
+                    raise self.err(f"integer method {ast[2]}")
+                recv = self.struct_(ast[1])[0]
+                return ("coqres" if sig["res"] else "coq", f"({sig['coq']} {recv})", sig["ret"][1])
+        return super().subst(ast)
+
+    def int_atom(self, ast, want):
+        if ast[0] == "var" and ast[1] in self.env and self.env[ast[1]]["kind"] == ("int", None) and want is not None:
+            self.env[ast[1]]["kind"] = ("int", want)          # `let mut c = 0;` typed by this use
+        return super().int_atom(ast, want)
+
+    def site_wrap(self, lhs, term):
+        if lhs[0] == "field" and lhs[1] == ("var", "self") and lhs[2] in self.sites["at_site"]:
+            if lhs[2] in self.used["at_site"]:
+                raise self.err(f"second compound assignment to self.{lhs[2]}: the table names one site")
+            self.used["at_site"].add(lhs[2])
+            return f"(ref_at_site {self.sites['at_site'][lhs[2]]} {term})"
+        return term
+
+    def next_site(self, what):
+        i = self.used[what]
+        if i >= len(self.sites[what]):
+            raise self.err(f"more {what} sites than Panic codes in _REF_LOOP_FNS")
+        self.used[what] = i + 1
+        return self.sites[what][i]
+
+    # ---- array valued expressions ----
+    def elem_of(self, ast):
+        if ast[0] == "var" and ast[1] in self.env:
+            return self.env[ast[1]].get("elem")
+        return None
+
+    def mut_call(self, ast):
+        """`self.m(args)` with a `&mut self` method that returns a value, inside an expression: bound first"""
+        recv, m, args = ast[1], ast[2], ast[3]
+        if recv != ("var", "self") or self.selfmode != "mut":
+            return None
+        sig = self.ctx.methods.get((self.struct, m))
+        if not sig or sig["self"] != "mut" or sig["ret"] is None:
+            return None
+        if "self" in self.stmt_reads:
+            raise self.err(f"self.{m}() changes self after another part of the statement has read it")
+        if any(io for _, _, io in sig["params"]) or len(args) != len(sig["params"]):
+            raise self.err(f"call of {sig['coq']} inside an expression")
+        self.use_sig(sig)
+        terms = [self.value(a, k) for a, (_, k, _) in zip(args, sig["params"])]
+        t = self.fresh()
+        pat = f"'(self, {t})"
+        if sig["res"]:
+            self.bind(pat, self.call_term(sig, "self", terms))
+        else:
+            self.let(pat, self.call_term(sig, "self", terms))
+        self.assigned("self")
+        return t, sig["ret"]
+
+    def index2(self, ast):
+        """`a[i]` on a [[u32; 8]; N] -> (root, fields, array term, i : N): the bounds assert is emitted here"""
+        p = self.path(ast[1])
+        if not p or p[3] != ("arr2",) or ast[2][0] == "range":
+            return None
+        i = self.int_atom(ast[2], 64)
+        self.check(f"({i} <? N.of_nat (length {p[2]}))", self.next_site("index"), "index")
+        return p[0], p[1], p[2], i
+
+    def arr(self, ast):
+        k = ast[0]
+        if k == "var" and ast[1] not in self.env and ast[1] in self.ctx.arr_consts:
+            return self.ctx.arr_consts[ast[1]]
+        if k == "call" and ast[1] in self.ctx.fns and self.ctx.fns[ast[1]]["ret"] == ("arr",):
+            t, res = self.call(self.ctx.fns[ast[1]], None, ast[2])
+            return self.value_of(t, res)
+        if k == "meth" and ast[2] == "as_bytes" and not ast[3]:
+            p = self.path(ast[1])
+            if p and p[3] == ("str",):
+                return p[2]
+        if k == "meth" and ast[2] == "to_le_bytes" and not ast[3]:
+            s = self.subst(ast[1])
+            if s[0] == "coq" and s[2] == 32:
+                return f"(bytes_of_word {s[1]})"
+        if k == "meth":
+            mc = self.mut_call(ast)
+            if mc and mc[1] == ("arr",):
+                return mc[0]
+        if k == "index" and ast[2][0] != "range":
+            ix = self.index2(ast)
+            if ix:
+                return f"(arr2_get {ix[2]} (N.to_nat {ix[3]}))"
+        if k == "index" and ast[2][0] == "range" and self.path(ast[1]) is None:
+            lo, hi = ast[2][1], ast[2][2]
+            base = self.named(self.arr(ast[1]))
+            ln = f"(N.of_nat (length {base}))"
+            if lo is None and hi is not None:
+                b = self.int_atom(hi, 64)
+                self.check(f"({b} <=? {ln})", _L_SLICE_TO, "[..b]")
+                return f"(firstn (N.to_nat {b}) {base})"
+            if lo is not None and hi is None:
+                a = self.int_atom(lo, 64)
+                self.check(f"({a} <=? {ln})", _L_SLICE_FROM, "[a..]")
+                return f"(skipn (N.to_nat {a}) {base})"
+        return super().arr(ast)
+
+    def arr2(self, ast):
+        if ast[0] in ("var", "field"):
+            p = self.path(ast)
+            if p and p[3] == ("arr2",):
+                return p[2]
+        if ast[0] == "repeat" and ast[1][0] == "repeat" and ast[1][1] == ("num", 0):
+            return (f"(repeat (repeat 0 (N.to_nat {self.int_atom(ast[1][2], 64)})) "
+                    f"(N.to_nat {self.int_atom(ast[2], 64)}))")
+        raise self.err(f"cannot translate the array-of-arrays expression {ast!r}")
+
+    def value(self, ast, kind):
+        if kind == ("arr2",):
+            return self.arr2(ast)
+        return super().value(ast, kind)
+
+    def kind_of(self, ast):
+        k = ast[0]
+        if k == "num":
+            return ("int", None)
+        if k == "var" and ast[1] not in self.env and ast[1] in self.ctx.arr_consts:
+            return ("arr",)
+        if k == "meth":
+            s = self.recv_struct(ast[1])
+            if s:
+                sig = self.ctx.methods.get((s, ast[2]))
+                if sig is None:
+                    raise self.err(f"call of {s}::{ast[2]}, which is not translated")
+                return sig["ret"]
+        if k == "index" and ast[2][0] != "range":
+            return ("arr",)
+        return super().kind_of(ast)
+
+    # ---- statements ----
+    def stmt(self, s, top):
+        self.stmt_reads = set()
+        if s[0] == "for":
+            return self.for_stmt(s)
+        if s[0] == "let" and s[4] is not None and s[3] is None and s[4][0] == "num":
+            _, mut, v, _, init = s                              # typed by its first use
+            self.let(v, str(init[1]))
+            return self.declare(v, ("int", None), mut)
+        r = super().stmt(s, top)
+        if s[0] == "let" and s[4] is not None and s[2] in self.env and self.env[s[2]]["kind"] == ("arr",):
+            init = s[4]
+            if init[0] == "call" and init[1] in self.ctx.fns:
+                self.env[s[2]]["elem"] = self.ctx.fns[init[1]].get("elem")
+        return r
+
+    def assign(self, s):
+        _, op, lhs, rhs = s
+        if lhs[0] == "index" and lhs[2][0] != "range" and op == "=":
+            ix = self.index2(lhs)                                # the place is evaluated first, then the value
+            if ix is None:
+                raise self.err(f"assignment to {lhs!r}")
+            root, fs, cur, i = ix
+            if not self.env[root]["mut"]:
+                raise self.err(f"assignment to {root}, which is not mutable")
+            return self.set_path(root, fs, f"(arr2_set {cur} (N.to_nat {i}) {self.arr(rhs)})")
+        return super().assign(s)
+
+    def place(self, ast, codes=None):
+        if ast[0] == "index" and ast[2][0] == "range":
+            if codes is None:
+                codes = self.next_site("place")
+            root, fs, base, off, ln = self.place(ast[1], codes)
+            lo, hi = ast[2][1], ast[2][2]
+            if lo is not None and hi is None:
+                a = self.int_atom(lo, 64)
+                self.check(f"({a} <=? {ln})", codes[0], "[a..]")
+                return root, fs, base, a if off is None else f"({off} + {a})", f"({ln} - {a})"
+            if lo is None and hi is not None:
+                b = self.int_atom(hi, 64)
+                self.check(f"({b} <=? {ln})", codes[1], "[..b]")
+                return root, fs, base, off, b
+            raise self.err(f"range {ast!r}")
+        p = self.path(ast)
+        if p and p[3] == ("arr",) and p[1] and self.env[p[0]]["mut"]:
+            return p[0], p[1], p[2], None, f"(N.of_nat (length {p[2]}))"
+        if p and p[3] in (("slice",), ("arr",)) and not p[1] and self.env[p[0]]["mut"] and codes is None:
+            return p[0], p[1], p[2], None, f"(N.of_nat (length {p[2]}))"      # a whole local slice
+        raise self.err(f"not a mutable array place: {ast!r}")
+
+    def out_arg(self, a, k):
+        """argument for a `&mut [u8]` parameter: `&mut v` (a local array / slice) or a `&mut [u8]` parameter itself"""
+        if a[0] == "ref" and a[1] and a[2][0] == "var":
+            v = a[2][1]
+        elif a[0] == "var" and any(v == a[1] and io for v, _, io in self.params):
+            v = a[1]
+        else:
+            raise self.err(f"argument {a!r} for a &mut parameter")
+        e = self.env.get(v)
+        if not e or not e["mut"] or e["uninit"] or e["kind"] not in (("arr",), ("slice",)) or k != ("slice",):
+            raise self.err(f"argument {a!r} for a &mut parameter")
+        return v
+
+    def method_stmt(self, p, sig, args):
+        """`recv.m(args);` for a translated method without a value: binds the new receiver (`&mut self`) and the new
+        contents of the `&mut [u8]` arguments"""
+        root, fs, recv, _ = p
+        if sig["ret"] is not None or len(args) != len(sig["params"]):
+            raise self.err(f"call of {sig['coq']} as a statement")
+        if sig["self"] == "mut" and not self.env[root]["mut"]:
+            raise self.err(f"{sig['coq']} on {root}, which is not mutable")
+        self.use_sig(sig)
+        terms, outs = [], []
+        for a, (_, k, io) in zip(args, sig["params"]):
+            if io:
+                v = self.out_arg(a, k)
+                terms.append(v)
+                outs.append(v)
+            else:
+                terms.append(self.value(a, k))
+        rt = None
+        if sig["self"] == "mut":
+            rt = root if not fs else self.fresh()
+            outs = [rt] + outs
+        if not outs:
+            raise self.err(f"call of {sig['coq']} has no effect")
+        pat = outs[0] if len(outs) == 1 else "'(" + ", ".join(outs) + ")"
+        term = self.call_term(sig, recv, terms)
+        if sig["res"]:
+            self.bind(pat, term)
+        else:
+            self.let(pat, term)
+        if sig["self"] == "mut":
+            if fs:
+                self.set_path(root, fs, rt)
+            else:
+                self.assigned(root)
+        for v in outs[1 if sig["self"] == "mut" else 0:]:
+            self.assigned(v)
+
+    def expr_stmt(self, e):
+        if e[0] == "call" and e[1] in self.ctx.fns and isinstance(self.ctx.fns[e[1]]["ret"], tuple) \
+                and self.ctx.fns[e[1]]["ret"][0] == "inplace":
+            # f(&a, &mut w): w := f a w, after the callee's debug_assert_eq!
+            sig, args = self.ctx.fns[e[1]], e[2]
+            mi = sig["ret"][1]
+            if len(args) != 2 or mi != 1 or sig["kinds"] != [("arr",), ("arr",)]:
+                raise self.err(f"call {e!r}")
+            a0 = self.named(self.arr(args[0]))
+            w = args[1]
+            if not (w[0] == "ref" and w[1] and w[2][0] == "var" and self.env.get(w[2][1], {}).get("kind") == ("arr",)
+                    and self.env[w[2][1]]["mut"]):
+                raise self.err(f"call {e!r}: second argument")
+            w = w[2][1]
+            if sig["asserts"]:
+                if e[1] not in _REF_DEBUG_ASSERT:
+                    raise self.err(f"no Panic code for the debug assertion of {e[1]}")
+                self.check(f"({sig['coq']}_debug_assert {a0} {w})", _REF_DEBUG_ASSERT[e[1]], f"debug_assert_eq! of {e[1]}")
+            self.let(w, f"{sig['coq']} {a0} {w}")
+            self.env[w]["elem"] = 32
+            return self.assigned(w)
+        if e[0] == "meth":
+            recv, m, args = e[1], e[2], e[3]
+            if m == "copy_from_slice" and len(args) == 1:
+                root, fs, base, off, ln = self.place(recv)
+                src = self.named(self.arr(args[0]))
+                self.check(f"(N.of_nat (length {src}) =? {ln})", _L_COPY_LEN, "copy_from_slice")
+                return self.set_path(root, fs, f"(arr_store {base} (N.to_nat {off or '0'}) {src})")
+            p = self.path(recv)
+            if p and p[3][0] == "struct":
+                sig = self.ctx.methods.get((p[3][1], m))
+                if sig is None:
+                    raise self.err(f"call of {p[3][1]}::{m}, which is not translated")
+                return self.method_stmt(p, sig, args)
+        raise self.err(f"expression statement {e!r}")
+
+    def for_stmt(self, s):
+        _, pat, it, (body, tail) = s
+        if tail is not None:
+            raise self.err("loop body with a value")
+        zipped = None
+        if it[0] == "meth" and it[2] == "zip" and len(it[3]) == 1 and it[1][0] == "meth" and it[1][2] == "iter" \
+                and not it[1][3] and len(pat) == 2:
+            zipped, chunks = it[1][1], it[3][0]
+            wv, xv = pat
+        elif len(pat) == 1:
+            chunks, xv = it, pat[0]
+        else:
+            raise self.err(f"for loop over {it!r}")
+        if not (chunks[0] == "meth" and chunks[2] == "chunks_mut" and len(chunks[3]) == 1 and chunks[1][0] == "var"):
+            raise self.err(f"for loop over {it!r}")
+        sv = chunks[1][1]
+        se = self.env.get(sv)
+        if not se or se["kind"] not in (("slice",), ("arr",)) or not se["mut"] or se["uninit"]:
+            raise self.err(f"chunks_mut of {sv}, which is not a mutable slice")
+        for v, e in self.env.items():
+            if e["uninit"]:
+                raise self.err(f"{v} is not initialised at the loop")
+        # the chunk size: a positive constant (chunks_mut(0) panics)
+        try:
+            nval = const_eval(chunks[3][0], self.ctx.const_vals, self.name)
+        except (AnchorError, KeyError):
+            raise self.err(f"chunk size {chunks[3][0]!r} is not a constant")
+        if nval <= 0:
+            raise self.err(f"chunk size {nval}")
+        n = self.int_atom(chunks[3][0], 64)
+        if re.fullmatch(r"t\d+", n):                            # bound before the loop: one of its parameters
+            self.env[n] = {"kind": ("int", 64), "mut": False, "uninit": False}
+        wl = None
+        if zipped is not None:
+            if zipped[0] != "var" or self.env.get(zipped[1], {}).get("kind") != ("arr",) or self.elem_of(zipped) is None:
+                raise self.err(f"iter() of {zipped!r}: not an array of integers of a known type")
+            wl = "iter_" + zipped[1]
+        scope = [(v, self.ctx.coq_type(e["kind"])) for v, e in self.env.items()]
+        for v in [xv] + ([wv, wl] if zipped is not None else []):
+            if v in self.env or v in self.ctx.consts or v == "fuel" or re.fullmatch(r"t\d+|ext_.*", v):
+                raise self.err(f"loop variable {v} shadows a variable")
+        # the body: the slice being chunked cannot be named inside it
+        hidden = self.env.pop(sv)
+        order = list(self.env)
+        self.env[xv] = {"kind": ("slice",), "mut": True, "uninit": False, "elem": se.get("elem")}
+        if zipped is not None:
+            self.env[wv] = {"kind": ("int", self.elem_of(zipped)), "mut": False, "uninit": False}
+        fuel_before = self.fuel
+        self.fuel = False
+        body_lines, vs = self.sub_block(body)
+        body_fuel, self.fuel = self.fuel, fuel_before
+        for v in (xv, wv) if zipped is not None else (xv,):
+            del self.env[v]
+        self.env = {v: (hidden if v == sv else self.env[v]) for v in [x for x, _ in scope]}     # original order
+        vs = [v for v in vs if v != xv]
+        outs = [sv] + vs
+        lname = f"{self.name}_loop{len(self.loops) + 1}"
+        rty = " * ".join(self.ctx.coq_type(self.env[v]["kind"]) for v in outs)
+        args = " ".join(v for v, _ in scope)
+        sig = " ".join(f"({v} : {ty})" for v, ty in scope)
+        step = ([f"let {xv} := firstn (N.to_nat {n}) {sv} in", f"let {sv} := skipn (N.to_nat {n}) {sv} in"]
+                + body_lines)
+        done = f"Ok {self.tuple_of(outs)}"
+        again = f"Ok {self.tuple_of(['(' + xv + ' ++ ' + sv + ')'] + vs)}"
+        if zipped is None:
+            text = (f"Fixpoint {lname} @EXTS@(fuel : nat) {sig}\n  : res ({rty}) :=\n"
+                    f"  if (N.of_nat (length {sv}) =? 0) then {done}\n  else\n"
+                    f"    match fuel with\n    | O => OutOfFuel\n    | S fuel =>\n"
+                    + "".join("      " + l + "\n" for l in step)
+                    + f"      {self.pat_of(outs)} <- {lname} @EXTARGS@fuel {args} ;;\n      {again}\n    end.\n")
+            self.loops.append(text)
+            self.fuel = True
+            self.bind(self.pat_of(outs), f"{lname} @EXTARGS@fuel {args}")
+        else:
+            if body_fuel:
+                raise self.err("a zip loop whose body needs fuel")
+            text = (f"Fixpoint {lname} @EXTS@{sig} ({wl} : list N) {{struct {wl}}}\n  : res ({rty}) :=\n"
+                    f"  match {wl} with\n  | [] => {done}\n  | {wv} :: {wl} =>\n"
+                    f"    if (N.of_nat (length {sv}) =? 0) then {done}\n    else\n"
+                    + "".join("      " + l + "\n" for l in step)
+                    + f"      {self.pat_of(outs)} <- {lname} @EXTARGS@{args} {wl} ;;\n      {again}\n  end.\n")
+            self.loops.append(text)
+            self.bind(self.pat_of(outs), f"{lname} @EXTARGS@{args} {zipped[1]}")
+        for v in outs:
+            self.assigned(v)
+
+    def translate(self):
+        text = super().translate().replace(f"Definition {self.name} \n", f"Definition {self.name}\n")
+        for what in ("place", "index"):
+            if self.used[what] != len(self.sites[what]):
+                raise self.err(f"{self.used[what]} {what} sites in the body, {len(self.sites[what])} in _REF_LOOP_FNS")
+        if self.used["at_site"] != set(self.sites["at_site"]):
+            raise self.err(f"compound assignments {sorted(self.used['at_site'])}, _REF_LOOP_FNS names {sorted(self.sites['at_site'])}")
+        return text
+
+
+def _rl_sig(rsig, name):
+    """signature recorded by RFn -> signature of LCtx"""
+    kinds = []
+    for k, w in zip(rsig["params"], rsig["widths"]):
+        if k == "arr":
+            kinds.append(("arr",))
+        elif k == "word" and w:
+            kinds.append(("int", w))
+        elif isinstance(k, tuple) and k[0] == "struct":
+            kinds.append(k)
+        else:
+            raise AnchorError(f"{name}: parameter kind {k!r}")
+    ret, res, elem = rsig["ret"], False, None
+    rt = rsig["rettext"]
+    if ret == "arr":
+        ret = ("arr",)
+        m = re.fullmatch(r"-> \[(u8|u32); [^\]]+\]", rt)
+        elem = TYPES[m.group(1)] if m else None
+    elif ret == "res":
+        if rt[3:] not in TYPES:
+            raise AnchorError(f"{name}: result type {rt!r}")
+        ret, res = ("int", TYPES[rt[3:]]), True
+    elif isinstance(ret, tuple) and ret[0] in ("struct", "inplace"):
+        pass
+    else:
+        raise AnchorError(f"{name}: result {ret!r}")
+    return {"coq": rsig["coq"], "self": None, "struct": None, "kinds": kinds, "ret": ret, "res": res, "exts": [],
+            "fuel": False, "elem": elem, "asserts": rsig["asserts"]}
+
+
+def gen_refimpl_loops():
+    core = _refimpl_core()
+    ref, P = core["ref"], "refsrc_"
+    out = [HEADER.replace("NArith List.", "NArith List Bool.").replace(
+        "Base.MachInt.", "Base.MachInt Base.Word Base.Arr Base.Arr2.\nFrom V Require Import gen.GenConsts gen.GenRefImpl.")]
+    find1(r"\buse\s+core::cmp::min\s*;", ref, "reference_impl use core::cmp::min")
+    consts, const_vals = {}, {}
+    for c in ("BLOCK_LEN", "OUT_LEN", "KEY_LEN", "CHUNK_LEN"):
+        consts[c] = (core["cenv"][c], 64)
+        const_vals[c] = const_eval(parse_expr(rust_const(ref, c), c), {}, c)
+    for c in ("CHUNK_START", "CHUNK_END", "PARENT", "ROOT", "KEYED_HASH", "DERIVE_KEY_CONTEXT", "DERIVE_KEY_MATERIAL"):
+        consts[c] = (core["cenv"][c], 32)
+    structs = dict(core["structs"])
+    structs["Hasher"] = RStruct(ref, "Hasher", P, core["cenv"], structs)
+    if [(f, k) for f, k, _ in structs["Hasher"].fields] != [
+            ("chunk_state", ("struct", "ChunkState")), ("key_words", "arr"), ("cv_stack", "arr2"), ("cv_stack_len", "word"),
+            ("flags", "word")]:
+        raise AnchorError(f"struct Hasher: fields {structs['Hasher'].fields!r}")
+    find1(r"cv_stack\s*:\s*\[\s*\[\s*u32\s*;\s*8\s*\]\s*;\s*\d+\s*\]", ref, "Hasher.cv_stack: [[u32; 8]; N]")
+    ctx = LCtx(P, structs, consts, None)
+    ctx.const_vals, ctx.has_min, ctx.platform_methods = const_vals, True, {}
+    ctx.arr_consts = {"IV": "ref_IV"}
+    for fname, rsig in core["fns"].items():
+        if "nat" in rsig["params"]:
+            continue                                   # fn g (array indices as parameters): only called from round
+        sig = _rl_sig(rsig, fname)
+        sig["params"] = [(f"a{i}", k, False) for i, k in enumerate(sig["kinds"])]
+        ctx.fns[fname] = sig
+    for (s, mname), rsig in core["methods"].items():
+        sig = _rl_sig(rsig, f"{s}::{mname}")
+        if sig["kinds"] != [("struct", s)]:
+            raise AnchorError(f"{s}::{mname}: parameters {sig['kinds']!r}")
+        sig.update({"self": "ref", "struct": s, "params": []})
+        ctx.methods[(s, mname)] = sig
+
+    out.append("(* the Panic code of a checked operation replaced by the code Model/RefImpl.v gives the source site *)\n"
+               "Definition ref_at_site {A : Type} (site : N) (r : res A) : res A :=\n"
+               "  match r with Panic _ => Panic site | _ => r end.\n")
+    out.append("(* ---- struct Hasher ---- *)\n")
+    out.append(structs["Hasher"].record())
+    out.append("(* ---- record updates for `self.field = e` ---- *)\n")
+    for s in ("ChunkState", "Hasher"):
+        out.append(ctx.setters(s))
+    impls = {s: fn_body(ref, r"\bimpl\s+" + s + r"\s*\{", "impl " + s) for s in ("Output", "ChunkState", "Hasher")}
+    seen = set()
+    for s, fname, sites in _REF_LOOP_FNS:
+        if s not in seen:
+            seen.add(s)
+        out.append(f"(* ---- {s}::{fname} ---- *)\n")
+        f = RLFn(ctx, impls[s], s, fname, r"\bfn\s+" + fname + r"\s*\(", sites)
+        out.append(f.translate())
+        if f.selfmode:
+            ctx.methods[(s, fname)] = f.sig
+        else:
+            ctx.fns[f"{s}::{fname}"] = f.sig
+    # every function of the file is translated, here or in GenRefImpl.v
+    all_fns = set(re.findall(r"\bfn\s+(%s)\s*\(" % _IDENT, ref))
+    done = set(core["fns"]) | {m for _, m in core["methods"]} | {f for _, f, _ in _REF_LOOP_FNS}
+    if all_fns != done:
+        raise AnchorError(f"reference_impl.rs: functions {sorted(all_fns ^ done)} are not covered")
+    return "\n".join(out)
+
+
 def write_if_changed(path, text):
     try:
         with open(path) as f:
@@ -6763,7 +7387,8 @@ GENERATORS = [("GenConsts.v", gen_consts), ("GenFormulas.v", gen_formulas), ("Ge
               ("GenAsmFrames.v", gen_asm_frames),
               ("GenApi.v", gen_api), ("GenB3sum.v", gen_b3sum_literals), ("GenPortable.v", gen_portable), ("GenCHasherSmall.v", gen_c_hasher_small),
               ("GenCHasherLoops.v", gen_c_hasher_loops),
-              ("GenRefImpl.v", gen_refimpl), ("GenLibSmall.v", gen_lib_small), ("GenLibLoops.v", gen_lib_loops),
+              ("GenRefImpl.v", gen_refimpl), ("GenRefImplLoops.v", gen_refimpl_loops),
+              ("GenLibSmall.v", gen_lib_small), ("GenLibLoops.v", gen_lib_loops),
               ("GenCounters.v", gen_counters),
               ("GenRounds.v", gen_kernel_rounds)]
 
